@@ -28,9 +28,18 @@ pub fn judge(src: &str, class: &str, rc: &mut RCase) -> Result<(), Failure> {
         return Ok(());
     }
     let depth = front::bracket_depth(src);
-    let (out, _) = front::eval(src);
+    // the recorded blow-up on cyclic definitions is excluded by construction (and counted),
+    // otherwise every campaign would spend minutes in one known case
+    let skip = rc.kf.is_known(rc.property, "analyze_exponential:cyclic_definitions") && !rc.strict;
+    let (out, _) = front::eval_opts(src, skip);
     let key = hash64(src);
     match out {
+        Front::CyclicBlowup(fan) => {
+            let _ = rc.tolerated("analyze_exponential:cyclic_definitions");
+            rc.label(&format!("excluded:cyclic_definitions_fanout_{}", fan.min(9)));
+            rc.record(key, true, rendered);
+            Ok(())
+        }
         Front::ParsePanic(p) => {
             let sig = format!("parse_panic:{}", p.sig());
             if rc.tolerated(&sig) {
